@@ -268,4 +268,12 @@ def corpus_histories():
     ops += ['get %s -' % hx('d%02d' % i) for i in (0, 5, 19)] + ['scan -', 'crange 2 * *', 'layout', 'reopen', 'layout', 'scan -']
     out.append((dict(BASE_CFG), ops))
     out.append((dict(BASE_CFG, reuse_logs=1), list(ops)))
+    # (5) log / MANIFEST reuse across many version edits: the reused MANIFEST grows past a 32 KiB block boundary
+    #     (big keys make each edit ~6 KiB), then clean reopens
+    big = lambda i: (bytes([0x62]) * 2990 + b'%04d' % i).hex()
+    ops = ['open', 'put 61 @5:1', 'reopen', 'put 61 @5:2']
+    for i in range(14):
+        ops += ['put %s @8:%d' % (big(i), i), 'flush']
+    ops += ['layout', 'reopen', 'get 61 -', 'layout', 'put 61 @5:3', 'reopen', 'get 61 -', 'scan -', 'layout']
+    out.append((dict(BASE_CFG, reuse_logs=1), ops))
     return out
